@@ -251,7 +251,7 @@ def c03(run):
     run.trace("roundtrip-canon", Q(run, 1, 10), seed_off=370, poison=1, small=True)
     run.trace("registry-frames", Q(run, 10, 200), types=["sse.SseBinary", "szse.SzseBinary", "sample.RootPacket"], seed_off=400)
     # every length / count 0..1100 of every prefixed primitive (incl. the length of a text-list element), both orders
-    run.trace("prim-sweep", Q(run, 1, 2), seed_off=500, chunk=600)
+    run.trace("prim-sweep", Q(run, 1, 2), seed_off=500, chunk=1500, extra_env={"VERIF_SWEEP_LIGHT": "1"})
     # the same pairs by 16 goroutines at once, each on its own buffers (a fallback path taken only under contention): results only
     run.parallel("prim-pairs", Q(run, 1, 4), goroutines=16, rounds=Q(run, 3, 6), seed_off=600, race_filter="RESULTS-ONLY", hammer=Q(run, 6, 24), prop_clauses="C03", abort_violates=False, small=True)
     return run.finish(RULE_PRIMMODEL + RULE_PRIM + RULE_TRACE + RULE_POISON)
